@@ -146,7 +146,15 @@ func (c *FCtx) evalCall(st *State, call *ast.CallExpr) []Val {
 		fail("call to external function %s without an assumed contract in /verif/spec/extern.contracts", key)
 	}
 	con.Used = true
-	if con.Inline {
+	forceInline := false
+	if c.con != nil {
+		for _, k := range c.con.Inlines {
+			if k == key {
+				forceInline = true
+			}
+		}
+	}
+	if con.Inline || forceInline {
 		if fi == nil {
 			fail("inline contract on external function %s", key)
 		}
@@ -506,10 +514,13 @@ func (c *FCtx) callContract(st *State, con *Contract, fi *FuncInfo, fn *types.Fu
 	// inputs of the call as terms (for `pure` contracts: outputs are uninterpreted functions of exactly these)
 	var pureIn []*Term
 	if con.Pure {
-		pureIn = c.pureInputs(pre, con, pnames, args)
+		pureIn = c.packInputs(st, con.Key, c.pureInputs(pre, con, pnames, args))
 	}
 	// havoc
 	for i, r := range regs {
+		if con.Pure && c.overlayPureRegion(st, r, fmt.Sprintf("pure$%s$w%d", con.Key, i), pureIn) {
+			continue
+		}
 		c.havocRegion(st, r, fmt.Sprintf("%s$%d", fn.Name(), i))
 		if con.Pure {
 			c.assumePureRegion(st, r, fmt.Sprintf("pure$%s$w%d", con.Key, i), pureIn)
@@ -575,6 +586,14 @@ func (c *FCtx) pureInputs(st *State, con *Contract, pnames []string, args []Val)
 		in = append(in, c.valTerms(st, a, 0)...)
 	}
 	return in
+}
+
+// packInputs names the whole argument tuple of a pure call by one fresh constant p = pack$key(inputs...), so that
+// the uninterpreted output functions take a single argument (keeps VCs small; congruence is unchanged).
+func (c *FCtx) packInputs(st *State, key string, in []*Term) []*Term {
+	p := Sym(c.freshName("pin"), Sort("PureIn"))
+	st.assume(Eq(p, App("pack$"+key, Sort("PureIn"), in...)))
+	return []*Term{p}
 }
 
 // valTerms flattens a value (and the memory it refers to, in state st) into SMT terms.
@@ -658,6 +677,29 @@ func (c *FCtx) assumePureVal(st *State, v Val, name string, in []*Term) {
 	}
 }
 
+// overlayPureRegion: for a byte-array window assigned by a pure callee the new backing store is the TERM
+// overlay(old, lo, n, F(inputs)) rather than a fresh array with a quantified definition: later uses then
+// reduce by ground rewriting (sub(overlay(M,lo,n,S),lo,n) = sub(S,0,n)) instead of extensionality proofs.
+func (c *FCtx) overlayPureRegion(st *State, r Region, name string, in []*Term) bool {
+	if !r.Ranged {
+		return false
+	}
+	cur := c.project(st.cells[r.Cell], r.Path)
+	mv, ok := cur.(MV)
+	if !ok || mv.T.S != SArr(SInt) {
+		return false
+	}
+	n := Sub(r.Hi, r.Lo)
+	nt := App("overlay", SArr(SInt), mv.T, r.Lo, n, App(name, SArr(SInt), in...))
+	// element type facts: the callee stores values of the element type
+	if k, ok := intKindOf(mv.Elem); ok {
+		q := Sym(c.freshName("q"), SInt)
+		st.assume(Forall([]*Term{q}, rangeFact(Select(nt, q), k), Select(nt, q)))
+	}
+	c.writePlace(st, Place{Cell: r.Cell, Path: r.Path}, MV{nt, mv.Elem})
+	return true
+}
+
 func (c *FCtx) assumePureRegion(st *State, r Region, name string, in []*Term) {
 	cur := c.project(st.cells[r.Cell], r.Path)
 	if !r.Ranged {
@@ -682,12 +724,76 @@ func (c *FCtx) mergeFlows(base *State, prefix int, flows []Flow) (*State, [][]Va
 	if len(flows) == 1 {
 		return flows[0].st, [][]Val{flows[0].results}, true
 	}
+	// Path conditions form a prefix tree (flows fork at branch literals).  The merged hypotheses are the shared
+	// prefix, then per fork "one of the branch literals holds" and each later fact guarded by its branch literals.
+	var outPC []*Term
 	conds := make([]*Term, len(flows))
-	for i, f := range flows {
-		conds[i] = And(f.st.pc[prefix:]...)
+	for i := range conds {
+		conds[i] = True()
 	}
+	var build func(idx []int, start int, guard *Term)
+	build = func(idx []int, start int, guard *Term) {
+		pos := start
+		for {
+			f0 := flows[idx[0]].st.pc
+			if pos >= len(f0) {
+				break
+			}
+			t := f0[pos]
+			same := true
+			for _, k := range idx[1:] {
+				if pos >= len(flows[k].st.pc) || flows[k].st.pc[pos] != t {
+					same = false
+					break
+				}
+			}
+			if !same {
+				break
+			}
+			outPC = append(outPC, Implies(guard, t))
+			pos++
+		}
+		if len(idx) == 1 {
+			return
+		}
+		// group by the literal at pos
+		var order []*Term
+		groups := map[*Term][]int{}
+		for _, k := range idx {
+			var lit *Term
+			if pos < len(flows[k].st.pc) {
+				lit = flows[k].st.pc[pos]
+			} else {
+				lit = True()
+			}
+			if _, ok := groups[lit]; !ok {
+				order = append(order, lit)
+			}
+			groups[lit] = append(groups[lit], k)
+		}
+		if len(order) == 1 {
+			// identical remaining conditions: nothing distinguishes the flows any more
+			return
+		}
+		var lits []*Term
+		for _, lit := range order {
+			lits = append(lits, lit)
+			g := And(guard, lit)
+			for _, k := range groups[lit] {
+				conds[k] = And(conds[k], lit)
+			}
+			build(groups[lit], pos+1, g)
+		}
+		outPC = append(outPC, Implies(guard, Or(lits...)))
+	}
+	all := make([]int, len(flows))
+	for i := range all {
+		all[i] = i
+	}
+	build(all, prefix, True())
 	m := flows[len(flows)-1].st.clone()
 	m.pc = append([]*Term(nil), base.pc[:prefix]...)
+	m.pc = append(m.pc, outPC...)
 	res := append([]Val(nil), flows[len(flows)-1].results...)
 	for i := len(flows) - 2; i >= 0; i-- {
 		fs := flows[i].st
@@ -724,7 +830,6 @@ func (c *FCtx) mergeFlows(base *State, prefix int, flows []Flow) (*State, [][]Va
 			res[j] = nv
 		}
 	}
-	m.pc = append(m.pc, Or(conds...))
 	return m, [][]Val{res}, true
 }
 
@@ -873,6 +978,10 @@ func (c *FCtx) evalBuiltin(st *State, name string, call *ast.CallExpr) []Val {
 			for k := int64(0); k < n.Num.Int64(); k++ {
 				nt = Store(nt, Add(dst.Off, Num(k)), Select(srcMem, Add(src.Off, Num(k))))
 			}
+		} else if false && oldT.S == SArr(SInt) && srcMem.S == SArr(SInt) {
+			// memmove semantics (the source window is read from the pre-state) as one term: later uses reduce by
+			// rewriting with the overlay/sub axioms of the prelude
+			nt = App("overlay", oldT.S, oldT, dst.Off, n, subBytes(srcMem, src.Off, n))
 		} else {
 			nt = Sym(c.freshName("copy"), oldT.S)
 			q := Sym(c.freshName("q"), SInt)
